@@ -138,8 +138,11 @@ Fatal(st, sid, code) ==
 Raise(st, sid, c) ==
   IF c = 0 THEN Skip(st)
   ELSE IF st.h.m = "none" THEN Fatal(st, sid, c)
-  ELSE IF st.nest > 0 \/ st.ei.on THEN Skip(st)   \* not fixed by the properties
+  ELSE IF st.ei.on THEN Skip(st)                  \* an error inside a handler: not fixed by the properties
+  \* ON ERROR RESUME NEXT: continue with the next statement of the activation that failed - also when that
+  \* activation is a FUNCTION under evaluation (the pending expression of the caller goes on afterwards)
   ELSE IF st.h.m = "next" THEN [st EXCEPT !.k = Adv(st.k), !.errv = c]
+  ELSE IF st.nest > 0 THEN Skip(st)               \* a module-level handler entered from a nested evaluation: not modelled
   ELSE \* ON ERROR GOTO label: the handler runs at module level
     LET hk == GotoK(<<st.k[1]>>, st.h.l) IN
     IF hk = <<>> THEN Skip(st)
